@@ -12,7 +12,8 @@ mkdir -p "$D/repo" && cp -r /repo/src "$D/repo/src"
 rc_all=0
 for P in "$@"; do
   if [ -n "$RUNS" ]; then EXTRA="--runs $RUNS"; else EXTRA=""; fi
-  VERIF_SRC="$D/repo/src" "$HERE/check" "$P" $EXTRA > "$D/out.txt" 2>&1
+  VERIF_SRC="$D/repo/src" VERIF_EVIDENCE_DIR="$D/evidence" VERIF_REPLAY_DIR="$D/replays" \
+    "$HERE/check" "$P" $EXTRA > "$D/out.txt" 2>&1
   rc=$?
   echo "== $P exit=$rc"
   grep -E "^(violation key|VIOLATION|HARNESS-ERROR|KNOWN-FINDING)" "$D/out.txt" | cut -c1-220 | head -8
